@@ -244,6 +244,7 @@ func runLimitCase(r *mon.Run, c LimitCase) {
 
 	L, B := c.PerPeer, c.PerSubnet
 	everReached := true
+	dropsSeen := 0 // requests dropped by the subnet budget so far in this case
 
 	vcase := func(bi int) map[string]any { return map[string]any{"phase": "limits", "case": c, "burst": bi} }
 
@@ -415,15 +416,32 @@ func runLimitCase(r *mon.Run, c LimitCase) {
 		}
 
 		letGo()
-		var results [][]limitlab.ReqResult
-		for _, f := range fs {
+		results := make([][]limitlab.ReqResult, len(fs))
+		hangDeadline := time.After(hangBound)
+		for k, f := range fs {
 			select {
 			case res := <-f.res:
-				results = append(results, res)
-			case <-time.After(settleBound):
-				r.Inconclusive("limits: a burst did not complete after the gate was opened")
-				return false
+				results[k] = res
+				continue
+			case <-hangDeadline:
 			}
+			// The gate is open and every stream that had to be released was
+			// released, yet requests of this connection are neither answered
+			// nor dropped: its peer loop no longer gets a slot.
+			snap := node.CM.G.Snap()
+			guaranteed := B <= 0 || B >= L*connsInSubnet[f.la.sub]
+			detail := map[string]any{"subnet": f.la.sub, "perPeer": L, "perSubnet": B, "parkedNow": snap.Parked, "subnetDropsSeenEarlier": dropsSeen, "goroutines": limitlab.Keys(limitlab.Inventory(nil)), "stacks": limitlab.Stacks(limitlab.Inventory(nil), 10)}
+			switch {
+			case f.dropped || snap.Parked != 0:
+				r.Inconclusive("limits: a burst did not complete after the gate was opened (undecidable: connection dropped on purpose or handlers still parked)")
+			case guaranteed:
+				r.Violation("slot-leak:burst-hangs-within-budget", fmt.Sprintf("burst %d: with the gate open and nothing parked, requests of a connection whose subnet budget (%d) cannot be exceeded were neither answered nor dropped within 60 s (per-peer limit %d): a slot was not returned", bi, B, L), vcase(bi), detail)
+			case dropsSeen > 0 || (B > 0 && node.CM.Observed().MaxPerSubnet >= B):
+				r.Violation("slot-leak:burst-hangs-after-subnet-drops", fmt.Sprintf("burst %d: after the subnet budget had been reached (%d requests dropped by it in earlier bursts of this case), requests of a connection were neither answered nor dropped within 60 s although the gate is open and nothing is parked (per-peer limit %d, per-subnet %d): the per-peer slots of dropped requests were not returned", bi, dropsSeen, L, B), vcase(bi), detail)
+			default:
+				r.Inconclusive("limits: a burst did not complete after the gate was opened")
+			}
+			return false
 		}
 
 		// every observation must respect the limits
@@ -484,6 +502,7 @@ func runLimitCase(r *mon.Run, c LimitCase) {
 		}
 		r.Count("limit.requests_answered", answered)
 		r.Count("limit.requests_dropped_by_subnet_budget", drops)
+		dropsSeen += drops
 		if backpressure {
 			r.Count("limit.backpressure_bursts", 1)
 		}
@@ -684,5 +703,207 @@ func runStallCase(r *mon.Run, c StallCase) {
 	}
 	if len(lost) > 0 {
 		r.Violation("backpressure-stall-drops-request", fmt.Sprintf("%d of %d requests of one peer (MaxInflightRPCs=%d, subnet limit disabled) were dropped after the RPC timeout: the handlers holding the slots waited for request bodies that were queued, inside the multiplexer, behind the id frame of a stream the peer loop could not accept while it was waiting for a slot", len(lost), len(res), c.PerPeer), c, lost)
+	}
+}
+
+// DropLeakCase is the dedicated scenario for the subnet-drop path: one
+// connection has more RPCs dropped by the per-subnet budget than it has
+// per-peer slots (over several fully drained rounds); afterwards a burst that
+// is within every budget must be served completely on that same connection.
+//
+//	shared: another connection of the same subnet keeps the budget occupied
+//	self:   the subnet budget is below the per-peer limit
+type DropLeakCase struct {
+	Phase     string `json:"phase"`
+	Index     int    `json:"index"`
+	Variant   string `json:"variant"`
+	PerPeer   int    `json:"maxInflightRPCs"`
+	PerSubnet int    `json:"maxInflightRPCsPerSubnet"`
+	Rounds    int    `json:"rounds"`
+	PerRound  int    `json:"dropsPerRound"`
+}
+
+func phaseDropLeak(r *mon.Run) {
+	n := r.Pick(6, 40)
+	g := &guard{r: r, phase: "dropleak"}
+	for i := 0; i < n; i++ {
+		rng := r.RNG(0xA800 + uint64(i))
+		c := DropLeakCase{Phase: "subnet-drop-leak", Index: i}
+		if i%2 == 0 {
+			c.Variant = "shared"
+			c.PerPeer = 1 + rng.IntN(4)
+			c.PerSubnet = 1 + rng.IntN(c.PerPeer)
+		} else {
+			c.Variant = "self"
+			c.PerPeer = 2 + rng.IntN(3)
+			c.PerSubnet = 1 + rng.IntN(c.PerPeer-1)
+		}
+		c.Rounds = 2 + rng.IntN(2)
+		c.PerRound = (c.PerPeer+1+c.Rounds-1)/c.Rounds + rng.IntN(2)
+		if i < 2 {
+			r.Sample(c)
+		}
+		g.run(func() { runDropLeakCase(r, c) })
+	}
+	g.done()
+}
+
+func runDropLeakCase(r *mon.Run, c DropLeakCase) {
+	r.Eval()
+	baseline := limitlab.HandlerGoroutines()
+	w := limitlab.NewWorld(uint64(r.Seed)<<16 ^ uint64(c.Index) ^ 0xAB<<40)
+	node, err := w.NewNode(limitlab.NodeConfig{IP: victimIP(100 + c.Index), Opts: []syncer.Option{
+		syncer.WithSyncInterval(time.Hour), syncer.WithPeerDiscoveryInterval(time.Hour),
+		syncer.WithMaxInflightRPCs(c.PerPeer), syncer.WithMaxInflightRPCsPerSubnet(c.PerSubnet),
+	}})
+	if err != nil {
+		r.Inconclusive("dropleak: cannot build node: " + err.Error())
+		return
+	}
+	node.CM.SetLimits(c.PerPeer, c.PerSubnet)
+	node.Start()
+	const ip = "127.18.4.4"
+	sub := limitlab.SubnetKey(ip, 32)
+	node.CM.RegisterPeer(1, sub)
+	node.CM.RegisterPeer(2, sub)
+	var atts []*limitlab.Attacker
+	defer func() {
+		node.CM.G.Open()
+		for _, a := range atts {
+			a.Close()
+		}
+		closeNode(r, "limit", node, c)
+	}()
+	dial := func(idx uint32, port int) *limitlab.Attacker {
+		a, err := w.DialAttacker(idx, node.Addr, ip, port, nil)
+		if err != nil {
+			r.Inconclusive("dropleak: attacker could not connect: " + err.Error())
+			return nil
+		}
+		a.Serve()
+		atts = append(atts, a)
+		if err := a.Ping(settleBound); err != nil {
+			r.Inconclusive("dropleak: ping failed: " + err.Error())
+			return nil
+		}
+		return a
+	}
+	A := dial(1, 47000)
+	if A == nil {
+		return
+	}
+	var X *limitlab.Attacker
+	if c.Variant == "shared" {
+		if X = dial(2, 47001); X == nil {
+			return
+		}
+	}
+	L, B := c.PerPeer, c.PerSubnet
+	one := func(a *limitlab.Attacker, id uint32, kind int) chan limitlab.ReqResult {
+		ch := make(chan limitlab.ReqResult, 1)
+		go func() { ch <- a.Burst(id, []limitlab.ReqPlan{{Kind: kind}}, 3*time.Minute, nil)[0] }()
+		return ch
+	}
+	leak := func(what string, detail any) {
+		r.Violation("slot-leak:subnet-drop-path", what, c, detail)
+	}
+	dropped := 0
+	var id uint32
+	for round := 0; round < c.Rounds; round++ {
+		if !limitlab.WaitHandlersAtMost(baseline, settleBound) {
+			r.Inconclusive("dropleak: handlers did not drain between rounds")
+			return
+		}
+		node.CM.G.Shut()
+		// fill the subnet budget
+		var holders []chan limitlab.ReqResult
+		holder := A
+		if X != nil {
+			holder = X
+		}
+		for j := 0; j < B; j++ {
+			id++
+			holders = append(holders, one(holder, id, j))
+		}
+		if !node.CM.G.WaitFor(settleBound, func(s limitlab.GateSnapshot) bool { return s.Parked >= B }) {
+			if dropped >= L {
+				leak(fmt.Sprintf("round %d: after %d subnet drops on the connection its requests no longer reach a handler (per-peer limit %d, per-subnet %d)", round, dropped, L, B), limitlab.Keys(limitlab.Inventory(nil)))
+			} else {
+				r.Inconclusive("dropleak: the budget holders did not park")
+			}
+			return
+		}
+		// every further request of A is over the subnet budget: it has to be
+		// turned away at once, one by one
+		for j := 0; j < c.PerRound; j++ {
+			id++
+			select {
+			case rr := <-one(A, id, j):
+				if rr.OK {
+					r.Inconclusive("dropleak: a request over the subnet budget was answered while the gate was shut")
+					return
+				}
+				dropped++
+				r.Count("dropleak.requests_dropped_on_one_connection", 1)
+			case <-time.After(livenessBound):
+				leak(fmt.Sprintf("round %d: the request following %d subnet drops on the same connection was neither dropped nor answered within 30 s (per-peer limit %d, per-subnet %d): every dropped RPC kept its per-peer slot, the peer loop is blocked", round, dropped, L, B),
+					map[string]any{"dropsBefore": dropped, "goroutines": limitlab.Keys(limitlab.Inventory(nil))})
+				return
+			}
+		}
+		node.CM.G.Open()
+		for _, h := range holders {
+			select {
+			case rr := <-h:
+				if !rr.OK {
+					r.Inconclusive("dropleak: a budget holder was not answered: " + rr.Err)
+					return
+				}
+			case <-time.After(hangBound):
+				r.Inconclusive("dropleak: a budget holder did not complete")
+				return
+			}
+		}
+		r.Count("dropleak.rounds_drained", 1)
+	}
+	// the connection has seen more subnet drops than it has slots; a burst
+	// within every budget must still be served completely
+	if !limitlab.WaitHandlersAtMost(baseline, settleBound) {
+		r.Inconclusive("dropleak: handlers did not drain before the final burst")
+		return
+	}
+	node.CM.G.Shut()
+	M := minInt(L, B)
+	var final []chan limitlab.ReqResult
+	for j := 0; j < M; j++ {
+		id++
+		final = append(final, one(A, id, j))
+	}
+	if !node.CM.G.WaitFor(livenessBound, func(s limitlab.GateSnapshot) bool { return s.Parked >= M }) {
+		leak(fmt.Sprintf("after %d subnet drops on one connection only %d of %d requests of a burst within every budget reached a handler within 30 s (per-peer limit %d, per-subnet %d)", dropped, node.CM.G.Snap().Parked, M, L, B),
+			map[string]any{"drops": dropped, "goroutines": limitlab.Keys(limitlab.Inventory(nil))})
+		return
+	}
+	node.CM.G.Open()
+	for _, f := range final {
+		select {
+		case rr := <-f:
+			if !rr.OK {
+				leak(fmt.Sprintf("after %d subnet drops a request within every budget was not answered: %s", dropped, rr.Err), rr)
+				return
+			}
+		case <-time.After(hangBound):
+			leak("a request within every budget was neither answered nor dropped within 60 s after the gate was opened", nil)
+			return
+		}
+	}
+	r.Count("dropleak.final_bursts_served_completely", 1)
+	r.Count("dropleak.cases", 1)
+	if o := node.CM.Observed(); len(o.Excess) > 0 {
+		r.Violation("per-"+o.Excess[0].Kind+"-limit-exceeded", "limit exceeded in the subnet-drop scenario", c, o.Excess)
+		return
+	}
+	if dropped > L {
+		r.Distinct(fmt.Sprintf("dropleak/%s/L%d/B%d/drops%d", c.Variant, L, B, dropped))
 	}
 }
